@@ -291,7 +291,8 @@ func ruleRetryAndNotify(c *Check, rule string) {
 	pos := c.P.Pos(fn.Pos())
 	// the retry loop: the innermost loop around the LoadOnce call, in whichever
 	// function (Run itself or a helper split off it) the call lives
-	innerOf := func(call ssa.Instruction) *ssa.BasicBlock {
+	var innerOf func(call ssa.Instruction, d int) *ssa.BasicBlock
+	innerOf = func(call ssa.Instruction, d int) *ssa.BasicBlock {
 		var best *ssa.BasicBlock
 		bestN := 0
 		for _, b := range call.Parent().Blocks {
@@ -301,6 +302,24 @@ func ruleRetryAndNotify(c *Check, rule string) {
 			body := loopBody(b)
 			if body[call.Block()] && (best == nil || len(body) < bestN) {
 				best, bestN = b, len(body)
+			}
+		}
+		if best == nil && d < 3 && unknownHelper(call.Parent(), 0) {
+			// the loop body was extracted: the loop is around the helper's call
+			var site ssa.Instruction
+			n := 0
+			for _, g := range c.P.RepoFuncs() {
+				for _, b := range g.Blocks {
+					for _, in := range b.Instrs {
+						if ci, ok := in.(ssa.CallInstruction); ok && sameFunc(ci.Common().StaticCallee(), call.Parent()) {
+							site = in
+							n++
+						}
+					}
+				}
+			}
+			if n == 1 {
+				return innerOf(site, d+1)
 			}
 		}
 		return best
@@ -323,8 +342,8 @@ func ruleRetryAndNotify(c *Check, rule string) {
 			if !okl {
 				nFail++
 				sl := callsOf(p, "utils.SleepContext")
-				inner := innerOf(lo.Instr)
-				cont := inner != nil && p.EndPos != nil && p.EndPos.Parent() == lo.Instr.Parent() && p.End == fmt.Sprintf("backedge:%d", inner.Index)
+				inner := innerOf(lo.Instr, 0)
+				cont := inner != nil && p.EndPos != nil && p.EndPos.Parent() == inner.Parent() && p.End == fmt.Sprintf("backedge:%d", inner.Index)
 				cancelled := p.End == "return" && !retIsNilErr(p) && len(sl) == 1
 				if !(len(sl) == 1 && (cont || cancelled)) || lastSet {
 					retryOK = false
